@@ -514,6 +514,7 @@ type c09Snap struct {
 	Rev     []uint64
 	Bonded  map[int]bool
 	SeqRa   map[int]int
+	Tokens  map[int]math.Int // recorded bond (not rendered: part of the M-Core observation)
 }
 
 func (h *c09H) clientIdx(id string) int {
@@ -527,7 +528,7 @@ func (h *c09H) clientIdx(id string) int {
 
 func (h *c09H) snapshot() *c09Snap {
 	app, ctx := h.e.f.App, h.e.f.Ctx
-	s := &c09Snap{R2C: map[int]int{}, C2R: map[int]int{}, ChOf: map[int]int{}, Bonded: map[int]bool{}, SeqRa: map[int]int{}}
+	s := &c09Snap{R2C: map[int]int{}, C2R: map[int]int{}, ChOf: map[int]int{}, Bonded: map[int]bool{}, SeqRa: map[int]int{}, Tokens: map[int]math.Int{}}
 	exp := lctypes.DefaultExpectedCanonicalClientParams()
 	for ci, c := range h.clients {
 		var cs c09ClientSnap
@@ -615,6 +616,7 @@ func (h *c09H) snapshot() *c09Snap {
 		i := h.core.aidx(q.Address)
 		s.Bonded[i] = q.Status == seqtypes.Bonded
 		s.SeqRa[i] = h.core.raIdx[q.RollappId]
+		s.Tokens[i] = q.TokensCoin().Amount
 	}
 	return s
 }
@@ -955,17 +957,29 @@ func (m *c09Mon) c06(f []string, kv map[string]string, res string, prev, cur *c0
 		if !canon {
 			return
 		}
+		// a withdrawal: the message was accepted and the recorded bond went down (an accepted MsgUnbond of the proposer
+		// only starts its notice period: nothing is paid out, the blockers are consulted when the notice has elapsed
+		// and the proposer has rotated out)
+		withdrew := false
+		if res == "ok" {
+			pt, ok1 := prev.Tokens[a]
+			ct, ok2 := cur.Tokens[a]
+			withdrew = ok1 && (!ok2 || ct.LT(pt))
+		}
 		pending := false
 		for k, who := range m.unv {
 			if int(k[0]) == c && who[a] && prev.cons(c, k[1]) != nil && prev.desc(ra, k[1]) == nil {
 				pending = true
-				if res == "ok" {
+				if withdrew {
 					m.violate("C06/withdraw/allowed-while-signed-header-unverified",
 						fmt.Sprintf("%s accepted although a%d signed the header at height %d of canonical client c%d of r%d, which no state update covers yet", strings.Join(f, " "), a, k[1], c, ra))
 				}
 			}
 		}
 		if pending {
+			if res == "ok" && !withdrew {
+				res = "ok-proposer-notice-started"
+			}
 			m.r.Hit("c06/withdraw-attempt-with-unverified-header/" + res)
 		}
 	}
@@ -978,6 +992,9 @@ type c09Gen struct {
 	h    *c09H
 	r    *Run
 	step int
+	// C06, third clause: optimistic headers this generator had a bonded non-proposer sign on a client that was not
+	// canonical at the time (generator memory, not the module's signer store): (actor, client)
+	early [][2]int
 }
 
 func c09Params() coreParams {
@@ -1230,6 +1247,40 @@ func (c *c09Gen) headerLine(ci int, cs *coreSnap, ls *c09Snap) string {
 		ci, w, ht, root, ts, nv, c09ActorTok(ps), c09ActorTok(pd), rev, tr.H, valsLine(vals), valsLine(tvals))
 }
 
+// earlyHeaderLine: an honest header for a height above everything posted, on the not-yet-canonical client ci, signed
+// by the trusted key (power 10) and by the bonded non-proposer member `a` (power 1) whom it names as proposer —
+// the relayer order "create client, update it, then MsgSetCanonicalClient" with a sequencer that may want to leave
+func (c *c09Gen) earlyHeaderLine(ci int, cs *coreSnap, ls *c09Snap, ra c09Ra) string {
+	cl := ls.Clients[ci]
+	if len(cl.Cons) == 0 || cl.Frozen {
+		return ""
+	}
+	tr := cl.Cons[len(cl.Cons)-1]
+	signer := nvOwner(tr.Nv)
+	if signer < 0 || signer >= 5 {
+		return ""
+	}
+	a := -1
+	for _, m := range c.raMembers(cl.Chain) {
+		if q, ok := cs.Seqs[m]; ok && q.Bonded && m != ra.prop && m != signer {
+			a = m
+		}
+	}
+	if a < 0 {
+		return ""
+	}
+	ht := max(tr.H, ra.latest) + 2 + uint64(c.g.Intn(3)) // non-adjacent: the validator set differs from the trusted one
+	nv := uint64(signer + 1)
+	if ra.prop >= 0 {
+		nv = uint64(ra.prop + 1)
+	}
+	c.early = append(c.early, [2]int{a, ci})
+	c.r.Hit("header/early-signed-by-non-proposer-member")
+	return fmt.Sprintf("lc_update c%d w=top h=%d root=%d ts=%d nv=%d ps=%s pd=%s rev=%d trusted=%d vals=%s tvals=%s",
+		ci, ht, honestRoot(ht), honestTs(ht), nv, c09ActorTok(a), c09ActorTok(a), ra.rev, tr.H,
+		valsLine([]hdrVal{{signer, 10, true}, {a, 1, true}}), valsLine([]hdrVal{{signer, 1, true}}))
+}
+
 func (c *c09Gen) createLine(cs *coreSnap, ls *c09Snap) string {
 	g := c.g
 	ri := g.Intn(2)
@@ -1377,6 +1428,31 @@ func (c *c09Gen) next(cs *coreSnap, ls *c09Snap, inBlock *bool) string {
 		}
 	}
 	canon, hasCanon := ls.R2C[ri]
+	// C06, third clause: early optimistic header -> designation -> withdrawal attempt of its signer
+	if !hasCanon && len(mine) > 0 && g.Chance(6) {
+		if l := c.earlyHeaderLine(mine[g.Intn(len(mine))], cs, ls, ra); l != "" {
+			return l
+		}
+	}
+	for _, e := range c.early {
+		a, ci := e[0], e[1]
+		q, ok := cs.Seqs[a]
+		if !ok || !q.Bonded || ci >= len(ls.Clients) || ls.Clients[ci].Chain != ri {
+			continue
+		}
+		if !hasCanon && g.Chance(10) {
+			c.r.Hit("setcanon/after-early-header")
+			return fmt.Sprintf("lc_setcanon c%d", ci)
+		}
+		if hasCanon && canon == ci && a != ra.prop && g.Chance(8) {
+			if g.Bool() {
+				c.r.Hit("sequencer/early-signer-unbond")
+				return fmt.Sprintf("unbond a%d", a)
+			}
+			c.r.Hit("sequencer/early-signer-bond-dec")
+			return fmt.Sprintf("bond_dec a%d amt=%d", a, 1+g.Intn(500))
+		}
+	}
 	k := g.Intn(100)
 	switch {
 	case len(ls.Clients) < 6 && (len(mine) == 0 || k < 8):
@@ -1586,6 +1662,12 @@ func c09Directed() [][]string {
 			"bridge r0 h=1", honest, "lc_setcanon c0", "fraud r0 auth=gov h=3 rev=0 punish=- rewardee=-", "optin a1 1", "optin a2 1", "unbond a1",
 			"begin dt=3000000000", "end fail=-",
 			"update r0 by=a1 start=3 num=1 rev=1 last=1 bdlen=1 seqerr=- ts=all drs=1 rooterr=- roots=4 tss=30"}),
+		// C06, third clause: the bonded non-proposer a1 signs an optimistic header (height 5, heights 1..3 posted) that is accepted
+		// into the client BEFORE the client is designated canonical; after the designation a1 can neither unbond nor
+		// decrease its bond until a state update reaches height 5
+		cat(ra0, []string{"fund a1 amt=100000", "create_seq a1 r0 bond=2000 denom=ok", up(1, 3), honest,
+			"lc_update c0 w=top h=5 root=6 ts=50 nv=1 ps=a1 pd=a1 rev=0 trusted=2 vals=a0:10:1,a1:1:1 tvals=a0:1:1",
+			"lc_setcanon c0", "unbond a1", "bond_dec a1 amt=100", up(4, 1), "unbond a1", up(5, 2), "bond_dec a1 amt=100", "unbond a1"}),
 		// happy path: designation, honest optimistic header, agreeing state update, channel
 		cat(ra0, []string{up(1, 3), honest, "lc_setcanon c0",
 			"lc_update c0 w=top h=5 root=6 ts=50 nv=1 ps=a0 pd=a0 rev=0 trusted=2 vals=a0:1:1 tvals=a0:1:1", up(4, 3),
